@@ -3,8 +3,8 @@ package main
 // LIT-TYPE / QUOTE-DECODE (C06, C08), NODE-SOURCES (C06), DF-FLOW (C11), LOOP / REC (C01).
 
 import (
-	"go/token"
 	"fmt"
+	"go/token"
 	"go/types"
 	"sort"
 	"strings"
@@ -88,6 +88,12 @@ func ruleLITTYPE(c *Ctx, r *Report) {
 		case len(toks) == 1 && toks["lex.TQuoted"]:
 			nQ++
 			okVal := argKey == `strings.ReplaceAll($0.Val,"\"","")` || argKey == `$0.Val[1:(len($0.Val) - 1)]` || argKey == `strings.Trim($0.Val,"\"")`
+			if !okVal && isCall && len(call.Call.Args) > 0 {
+				// the same removal spelled as a byte-wise copy that skips the quote
+				if inner, ie, desc, ok := c.rewriteOfE(call.Call.Args[0], re); ok && desc == "rewrite[\"→]" && c.key(inner, ie) == "$0.Val" {
+					okVal = true
+				}
+			}
 			switch {
 			case len(seq) > 0:
 				r.bad(rule, "quoted|decided-first", pos, fmt.Sprintf("a quoted token reaches its literal only after other typing tests (%v): quoted digits or wildcards would be re-typed as number / pattern", seq))
